@@ -204,8 +204,8 @@ slab_c (int salt, int sli, int pli)
 static void
 slab_e (int which, int len, int term)
 {
-  static const char *const heads[] = { "$md5$", "$md5,rounds=7$", "$sha1$3$", "$7$2/..../....", "$6$rounds=1000$", "$1$" };
-  static const int hm[] = { M_SUNMD5, M_SUNMD5, M_SHA1, M_SCRYPT, M_SHA512, M_MD5 };
+  static const char *const heads[] = { "$md5$", "$md5,rounds=7$", "$sha1$3$", "$7$2/..../....", "$6$rounds=1000$", "$1$", "$sha1$24$", "$sha1$300$", "$sha1$4096$", "$sha1$65536$" };
+  static const int hm[] = { M_SUNMD5, M_SUNMD5, M_SHA1, M_SCRYPT, M_SHA512, M_MD5, M_SHA1, M_SHA1, M_SHA1, M_SHA1 };
   static const char *const terms[] = { "", "$", "$$" };
   char S[VH_SETMAX], rp[64];
   size_t hl = strlen (heads[which]);
@@ -284,10 +284,11 @@ main (int argc, char **argv)
             slab_c (salt, (int) sli, (int) pli);
     }
   vh_stat ("slab_c_done", 1);
-  for (int which = 0; which < 6 && !vh_expired (); which++)
+  for (int which = 0; which < 10 && !vh_expired (); which++)
     {
-      /* quick: the band around each method's own limit (result length 384 - 45 .. 384 + 10); thorough: 250..400 */
-      static const int lo[] = { 335, 325, 300, 275, 250, 250 }, hi[] = { 372, 362, 345, 345, 256, 256 };
+      /* quick: from well inside each method's own limit up to the salt length at which an echoed setting alone would no
+         longer fit CRYPT_OUTPUT_SIZE (so a result of exactly 384 or more characters is reachable); thorough: 250..400 */
+      static const int lo[] = { 335, 325, 300, 275, 250, 250, 300, 300, 300, 320 }, hi[] = { 390, 380, 385, 380, 256, 256, 385, 385, 385, 350 };
       for (int len = vh_thorough ? 250 : lo[which]; len <= (vh_thorough ? 400 : hi[which]); len++)
         for (int term = 0; term < 3; term++)
           if (vh_mine (idx++))
